@@ -331,7 +331,7 @@ func (c13Engine) Run(raw json.RawMessage) (interface{}, error) {
 	md := pgs.InitMockDebugger()
 	g.Debugger = md // contexts handed to modules log through the recording debugger
 	for _, p := range in.Procs {
-		kp := kindProc{kinds: map[int]bool{}, suffix: p.Suffix.String(), fails: p.Fails}
+		kp := kindProc{kinds: map[int]bool{}, suffix: p.Suffix.String(), fails: p.Fails, repl: p.Replace}
 		for _, k := range p.Kinds {
 			kp.kinds[k] = true
 		}
